@@ -98,7 +98,9 @@ def worker_p(job):
                 continue
             known_ids = list(range(1, n + 1)) + [101 + j for j in range(k) if specs[j].get('decodes') and not specs[j].get('dup')]
             same_as = it.choose(2, 'duplicate')                   # 1: re-send of an existing block
-            parent_opts = list(range(1, n + 1)) + [101 + j for j in range(k)] + [900, 901]     # 900 stable-only ancestor, 901 unknown
+            # 900 stable-only ancestor, 901 unknown, 902 a header that was only announced (next block header on top of the last tree
+            # block; its block was never delivered), 903 an announced header on top of 902
+            parent_opts = list(range(1, n + 1)) + [101 + j for j in range(k)] + [900, 901, 902, 903]
             if same_as:
                 bid = known_ids[it.choose(len(known_ids), 'dup-of')]
                 par = ts.par.get(bid, 900) if bid <= n else specs[bid - 101].get('parent', 901) if specs[bid - 101].get('decodes') else 901
@@ -118,6 +120,12 @@ def worker_p(job):
         by_blob = {}
         for s_, b in zip(specs, blobs):
             by_blob[id(b)] = s_
+        it.c10_specs = specs
+        # announced headers 902 <- 903 on top of tree block n (stored the way insert_next_block_header stores them)
+        nbhref = Ref(Cell(w['nbh'])) if not isinstance(w['nbh'], Ref) else w['nbh']
+        hn = sh.t + len(ts.path(n)) - 1
+        it.call('NextBlockHeaders::insert', [nbhref, hdr(prog_, 902, n), SInt(hn + 1, 'u32')])
+        it.call('NextBlockHeaders::insert', [nbhref, hdr(prog_, 903, 902), SInt(hn + 2, 'u32')])
 
         def decode(it_, k, r, a):
             v = deref(a[0])
@@ -178,7 +186,7 @@ def worker_p(job):
         if w['sync'].fields[w['dss'].fields.index('response_to_process')].v.variant != 0:
             cands.add(kernel='p', role='response-not-consumed', ts=ts, model=None, **info)
 
-    explore(prog, scenario, stats=st, on_panic=lambda it, e: cands.add(kernel='p', role='trap', ts=ts, model=None, msg=str(e)[:300]))
+    explore(prog, scenario, stats=st, on_panic=lambda it, e: cands.add(kernel='p', role='trap', ts=ts, model=None, msg=str(e)[:300], specs=getattr(it, 'c10_specs', None)))
     rep.add_stats(st, 'p:maybe_process_response')
     rep.cov['shapes'] += 1
     if len(seen) >= 3:
@@ -385,16 +393,24 @@ def confirm(cand, known):
                 resp.append(dict(kind='garbage'))
             elif s_.get('dup'):
                 resp.append(dict(kind='dup', of=s_['id']))
+            elif s_['parent'] in (902, 903):
+                resp.append(dict(kind='valid' if s_['valid'] else 'bad_merkle', id=s_['id'], parent=s_['parent']))     # child of an announced-only header
             elif s_['parent'] >= 900:
                 resp.append(dict(kind='orphan', id=s_['id']))
             elif not s_['valid']:
                 resp.append(dict(kind='bad_merkle', id=s_['id'], parent=s_['parent']))
             else:
                 resp.append(dict(kind='valid', id=s_['id'], parent=s_['parent']))
-        scen = [dict(ops=[dict(op='init', network='regtest', threshold=6), dict(op='process_response', blocks=blocks), dict(op='process_response', blocks=resp, keep=True)])]
+        scen = [dict(ops=[dict(op='init', network='regtest', threshold=6), dict(op='process_response', blocks=blocks),
+                          dict(op='announce', on=ts.n, count=2, ids=[902, 903]), dict(op='process_response', blocks=resp, keep=True)])]
         got = C.run_native(scen, tag='c10cx')[0][-1]
         doc['native'] = got
-        exp_tree = sorted(cand['expected'])
+        exp_tree = sorted(cand.get('expected') or cand.get('tree_before') or [])
+        if cand['role'] == 'trap':
+            if got.get('trap'):
+                doc['problems'].append('native heartbeat traps on response %s: %s' % (resp, str(got.get('trap'))[:200]))
+                return 'violation', doc
+            return 'not-reproduced', doc
         if sorted(got.get('tree', [])) != exp_tree or got.get('trap'):
             doc['problems'].append('native tree %s, rule %s (response %s)' % (got.get('tree'), exp_tree, resp))
             return 'violation', doc
